@@ -16,7 +16,7 @@ EXN_CODES = {
     ("_receive_stream_data_uni", "KeyError"): 41,
 }
 
-FIX_ORDER = ["maxpush", "settings", "pushpromise", "trunc", "endmark"]
+FIX_ORDER = ["maxpush", "settings", "pushpromise", "trunc", "endmark", "pushblock"]
 
 
 def H(x):
@@ -475,6 +475,15 @@ def probes():
                   kind="chunk",
                   what="stream whose last frame is of an ignored type (or PUSH_PROMISE) delivered together with the FIN: "
                        "the end of the stream is never reported; it is when the FIN arrives separately"))
+    enc = "023fe11fc0882f91d35d055c87a7c18562bb513964"        # encoder stream: capacity + three insertions
+    ppr = "0507000381d1d71011" + "01030000d9"                   # PUSH_PROMISE referring to them, then the response
+    P.append(dict(id="push-promise-blocked", flag="pushblock", prop="C14",
+                  sig={"defect": "push-promise-blocked"},
+                  case={"client": True, "dgram": True, "ops": [["s", 7, enc, 0], ["s", 0, ppr, 1]]},
+                  alt={"client": True, "dgram": True, "ops": [["s", 0, ppr, 1], ["s", 7, enc, 0]]},
+                  kind="chunk",
+                  what="PUSH_PROMISE whose header block has to wait for the encoder stream is resumed as a HEADERS frame: "
+                       "the client closes the connection with H3_MESSAGE_ERROR instead of reporting the promise"))
     return P
 
 
